@@ -86,7 +86,9 @@ def write_replay(prop, seed, idx, violation):
 
 def merge_counts(dst, src):
     for k, v in src.items():
-        if isinstance(v, dict):
+        if isinstance(v, (list, set, tuple)):
+            dst.setdefault(k, set()).update(v)
+        elif isinstance(v, dict):
             merge_counts(dst.setdefault(k, {}), v)
         elif isinstance(v, (int, float)) and not isinstance(v, bool):
             dst[k] = dst.get(k, 0) + v
@@ -199,6 +201,9 @@ def main(mod_name, argv=None):
             else:
                 violations.append((idx, v))
 
+    for k in list(agg['counters']):
+        if isinstance(agg['counters'][k], set):
+            agg['counters']['distinct_' + k] = len(agg['counters'].pop(k))
     wall_s = time.time() - t0
     evaluations = len([i for i in done_idxs if 'harness_error' not in results[i]])
     cov = {
